@@ -15,6 +15,7 @@ def run(rep, tier, seed, prop, theorems, desc, oracle, oracle_name, relevant=lam
     rep.cov['trusted_base'] += [
         'numpy float64 + - * / sqrt = IEEE binary64 = Coq PrimFloat; numpy sin/cos values taken as given (table lookup)',
         'modelled, not verified: ndarray views/dtype coercion in __new__, Python operator dispatch as read by the translator',
+        'NOT modelled (no theorem, direct oracle only): PoseSE2.from_matrix (math.atan2 has no counterpart in the expression language), equals (C17 has its own model)',
         'theorems are over exact reals; the doubles computed by the code are tied to the same generated terms by the PrimFloat correspondence (tolerance 2^-40 x absolute-value majorant, bit-exact count reported)']
     ok, info = check.proof_stage(rep, prop, theorems, desc)
     summ = info['summary'].get('tr_poses.py', {})
